@@ -17,7 +17,7 @@
 (* ("wellformed", calibrates the allocation bound), every truncation       *)
 (* offset (of the byte stream, and of the body with the header's length    *)
 (* field following), every length / count field replaced by -1, 0, n-1,    *)
-(* n+1, 2^15, 2^22, 2^31-1, every code (version, opcode, result kind,      *)
+(* n+1, 2^15, 2^21, 2^31-1, every code (version, opcode, result kind,      *)
 (* error code, type id, consistency) replaced by out-of-range values and   *)
 (* by the other valid ones, every enumeration string (event type, change,  *)
 (* schema target) made unknown, header / metadata flag bits toggled (flags *)
@@ -189,10 +189,14 @@ Replace(bytes, off, w, nb) == SubSeq(bytes, 1, off) \o nb \o SubSeq(bytes, off +
 Toggle(n, bit) == IF (n \div bit) % 2 = 1 THEN n - bit ELSE n + bit
 MaxFrame == 268435456   \* 256 MiB, the protocol's frame size limit
 
-LenVals(fd) ==
+\* big: the frame is one of the few on which the header may announce a body of megabytes that
+\* never comes (the driver allocates the announced size before reading; the kind of body is
+\* irrelevant to that and zeroing 256 MiB per case is slow)
+LenVals(fd, big) ==
   LET n == fd.n IN
-  (CASE fd.w = 4 -> {-1, 0, n - 1, n + 1, 32768, 4194304, 2147483647}
-                    \cup (IF fd.f = "header.length" THEN {n + 100, MaxFrame, MaxFrame + 1} ELSE {})
+  (CASE fd.w = 4 -> IF fd.f = "header.length"
+                    THEN {-1, 0, n - 1, n + 1, n + 100, 32768, MaxFrame + 1, 2147483647} \cup (IF big THEN {2097152, MaxFrame} ELSE {})
+                    ELSE {-1, 0, n - 1, n + 1, 32768, 2097152, 2147483647}
      [] fd.w = 2 -> {65535, 0, n - 1, n + 1, 32768, 32767} \cap (0 .. 65535)
      [] fd.w = 1 -> {0, n - 1, n + 1, 4, 16, 255} \cap (0 .. 255)) \ {n}
 CodeVals(fd, thorough) ==
@@ -211,7 +215,7 @@ FlagVals(fd) ==
 \* m = [mk, f, off, val]: the label of a case
 FieldMuts(s, thorough) ==
   UNION {LET fd == s.fields[i] IN
-         CASE fd.k \in {"len", "cnt"} -> {[mk |-> fd.k, f |-> fd.f, off |-> fd.off, w |-> fd.w, val |-> x] : x \in LenVals(fd)}
+         CASE fd.k \in {"len", "cnt"} -> {[mk |-> fd.k, f |-> fd.f, off |-> fd.off, w |-> fd.w, val |-> x] : x \in LenVals(fd, s.kind \in {"READY", "SUPPORTED"})}
            [] fd.k = "code" -> {[mk |-> "code", f |-> fd.f, off |-> fd.off, w |-> fd.w, val |-> x] : x \in CodeVals(fd, thorough)}
            [] fd.k = "flags" -> {[mk |-> "flags", f |-> fd.f, off |-> fd.off, w |-> fd.w, val |-> x] : x \in FlagVals(fd)}
            [] fd.k = "name" -> {[mk |-> "name", f |-> fd.f, off |-> fd.off, w |-> 1, val |-> 88]}
@@ -244,6 +248,30 @@ MNext ==
      \/ \E m \in FieldMuts(p, Tier = "thorough") : p' = ApplyField(p, m)
      \/ \E t \in p.hs .. Len(p.bytes) - 1 : p' = TruncBody(p, t)
      \/ \E t \in 0 .. Len(p.bytes) - 1 : p.stream /\ p' = TruncStream(p, t)
+
+\* ------------------------------------------------------------------ -simulate: seeded random damage ("arbitrary mutations and random bytes")
+\* one walk = one base frame and one random case: a byte overwritten, two bytes overwritten, the
+\* same with the body cut at a random offset, or the whole body replaced by random bytes (the
+\* header keeps version and opcode and announces the new length)
+RandBytes(n) == [i \in 1 .. n |-> RandomElement(0 .. 255)]
+RandCase(s) ==
+  LET L == Len(s.bytes)
+      o1 == RandomElement(0 .. L - 1)
+      o2 == RandomElement(0 .. L - 1)
+      b1 == RandomElement(0 .. 255)
+      b2 == RandomElement({0, 1, 127, 128, 254, 255})
+      mode == RandomElement(1 .. 4)
+      one == Replace(s.bytes, o1, 1, <<b1>>)
+      two == Replace(one, o2, 1, <<b2>>)
+      lf == s.fields[LengthField(s)]
+      cut == RandomElement(s.hs .. L)
+      n == RandomElement(0 .. 48)
+      bytes == CASE mode = 1 -> one
+                 [] mode = 2 -> two
+                 [] mode = 3 -> Replace(SubSeq(two, 1, cut), lf.off, 4, Int32(cut - s.hs))
+                 [] mode = 4 -> Replace(SubSeq(s.bytes, 1, s.hs), lf.off, 4, Int32(n)) \o RandBytes(n)
+  IN [s EXCEPT !.t = "case", !.mk = "random", !.f = "", !.off = o1, !.val = mode, !.fields = <<>>, !.bytes = bytes]
+MRandNext == p.t = "base" /\ p' = RandCase(p)
 
 EmitCase ==
   p.t = "case" =>
